@@ -44,7 +44,8 @@ Theorem C14_threshold_sets : forall fixer V P k tau byq init,
              (tauof tau i l <= Vat fixer V i j)%Q /\ (nth j (srow fixer V P k tau byq init i) 0%Q <= Vat fixer V i j)%Q /\
              (byq = false -> nth j (srow fixer V P k tau byq init i) 0%Q = tauof tau i l) /\
              (byq = true -> nth j (srow fixer V P k tau byq init i) 0%Q = valp fixer V rk i (pst l) /\
-                            forall q', 1 <= q' -> q' <= pst l -> (valp fixer V rk i (pst l) <= valp fixer V rk i q')%Q)) \/
+                            forall q', 1 <= q' -> q' <= pst l -> (valp fixer V rk i (pst l) <= valp fixer V rk i q')%Q) /\
+             (forall l', (1 <= l')%nat -> (l' < l)%nat -> (Vat fixer V i j < tauof tau i l')%Q)) \/
   (pst k < q /\ nth j (srow fixer V P k tau byq init i) 0%Q = init /\ (Vat fixer V i j < tauof tau i k)%Q).
 Proof. exact ElicitFinal.C14_sets. Qed.
 Print Assumptions C14_threshold_sets.
